@@ -77,6 +77,20 @@ let () =
         | _ -> failwith "variant") in
       show_ares a ^ " " ^ show_ctx a.a_ctx
     | _ -> "badargs");
+  (* destx <src> <target> <accel> : LZ4_compress_destSize_extState *)
+  reg "destx" (function [src; target; accel] ->
+      let src = bytes_of_hex src in
+      let srcm = mem_of_list (z 0) src in
+      let a = compress_destSize_internal srcm (len src) (zs target) (zs accel) in
+      show_ares a ^ " " ^ show_ctx a.a_ctx
+    | _ -> "badargs");
+  (* hcemit <src> <ip> <anchor> <op> <matchLength> <offset> <limit 0|1> <oend> : LZ4HC_encodeSequence *)
+  reg "hcemit" (function [src; ip; anchor; op; ml; off; limit; oend] ->
+      let srcl = Array.of_list (bytes_of_hex src) in
+      let rd a = let i = zi a in if i >= 0 && i < Array.length srcl then srcl.(i) else z 0 in
+      let e = encodeSequence rd (zs ip) (zs anchor) (zs op) (zs ml) (zs off) (limit = "1") (zs oend) in
+      Printf.sprintf "%s %s %s %s" (zstr e.e_ret) (zstr e.e_op) (zstr e.e_hw) (show_bytes e.e_bytes)
+    | _ -> "badargs");
   reg "ctxinit" (function _ -> cur_ctx := ctx_init; "ok");
   (* fr <src> <cap> <accel> : LZ4_compress_fast_extState_fastReset on the session context *)
   reg "fr" (function [src; cap; accel] ->
